@@ -44,7 +44,12 @@ def run_property(pid: str, tier: str, repo: str) -> int:
         if tier == 'thorough' and hasattr(mod, 'run_thorough'):
             mod.run_thorough(index, report)
         if tier == 'thorough':
-            from . import selftest
+            from . import normtest, selftest
+            nf = normtest.run()
+            report.extra_coverage['normal_form_selftest'] = nf
+            if nf['failures']:
+                raise AnalysisError('a rewrite of the normal-form layer is not '
+                                    f'semantics-preserving: {nf["failures"][:2]}')
             selftest.run(pid, repo, report)
         code = finish(report, mod.EXPLANATION, getattr(mod, 'TRUSTED', []))
         return code
